@@ -1,5 +1,5 @@
 #!/bin/bash
 # tools/try.sh <patch.diff> <rule> : run one rule on a scratch copy of /repo with the patch applied
 T=/tmp/try-$$; rsync -a --exclude .git /repo/ $T/; (cd $T && patch -p1 -s < $1) || { rm -rf $T; echo "patch failed"; exit 1; }
-/verif/bin/vcheck -rule $2 -repo $T 2>&1 | grep -A1 "^violation\|^undecided" | cut -c1-${3:-260}
+${VCHECK:-/verif/bin/vcheck} -rule $2 -repo $T 2>&1 | grep -A1 "^violation\|^undecided" | cut -c1-${3:-260}
 rm -rf $T
